@@ -106,6 +106,10 @@ def run(tier, seed, corrupt=False):
         elif e["is_tampered_view"] or kind in ("ids_drop", "ids_add", "other_block_hash"):
             if ours:
                 v.mismatch(f"rollupdata:celestia:{kind}:tampered-block-delivered", detail)
+        elif kind == "relabel_to_other" and len(ours) != 1:
+            # the other rollup's own data is untouched; a forged copy in its namespace (anyone can post one) must not
+            # keep its genuine block from being delivered
+            v.mismatch(f"rollupdata:celestia:{kind}:genuine-block-lost-to-forged-copy", detail)
     shutil.rmtree(vf.workdir("harness", f"c07-seq-{tier}"), ignore_errors=True)
     run.last_violations = len(v.violations)
     cov = {
